@@ -36,7 +36,8 @@ ENDINGS = [op('TRUE'), op('FALSE'), op('FALSE') + op('VERIFY'), P(b'junk') + op(
 
 def leaf_script(i):
     """record i via INVOKE, then an ending that makes the verdict the leaf's own"""
-    return P(bytes([i])) + P(b'\x01') + P(CID) + op('INVOKE') + ENDINGS[i % 4] + (P(bytes([0xa0 + i % 16, i])) + op('POP0'))
+    return P(bytes([i])) + P(b'\x01') + P(CID) + op('INVOKE') + ENDINGS[i % 4] + (P(bytes([0xa0 + i % 16, i])) + op('POP0')) + \
+        op('GET_MESSAGE') + b'\x00' + op('POP0')
 
 
 def own_verdict(i):
@@ -100,10 +101,40 @@ def build_real(shape, leaves_out):
     return T.ScriptNode(build_real(shape[0], leaves_out), build_real(shape[1], leaves_out))
 
 
+PLUGIN_CALLS = [0]
+
+
+def counting_plugin(tape, stack, cache):
+    PLUGIN_CALLS[0] += 1
+
+
+def build_real_history(shape, leaves_out):
+    """bottom-up construction that asks every node / leaf for its scripts before it is grafted into a bigger tree"""
+    if isinstance(shape, int):
+        leaf = T.ScriptLeaf.from_code(leaf_script(shape))
+        leaves_out[shape] = leaf
+        return leaf
+    l = build_real_history(shape[0], leaves_out)
+    r = build_real_history(shape[1], leaves_out)
+    node = T.ScriptNode(l, r)
+    node.locking_script()
+    node.unlocking_script()
+    node.commitment()
+    for ch in (l, r):
+        ch.unlocking_script()
+    for leaf in list(leaves_out.values()):
+        try:
+            leaf.unlocking_script()
+        except BaseException:
+            pass
+    return node
+
+
 def run_auth(scripts):
     rec = Recorder()
+    PLUGIN_CALLS[0] = 0
     try:
-        v = F.run_auth_scripts(list(scripts), {}, {CID: rec}, **LIMITS)
+        v = F.run_auth_scripts(list(scripts), {}, {CID: rec}, {'signature_extensions': [counting_plugin]}, **LIMITS)
     except BaseException as e:
         v = e
     return v, rec.log
@@ -168,6 +199,10 @@ def shape_case(ctx, case):
         if log != [bytes([i])] or v is not own_verdict(i):
             ctx.violation({'clause': 'honest proof runs exactly its leaf with the leaf\'s own verdict'},
                           f'shape {shape} leaf {i}: verdict {v!r} recorder {log}')
+        want_calls = 1 if i % 4 != 2 else 0        # the FALSE VERIFY ending stops before the signature instruction
+        if PLUGIN_CALLS[0] != want_calls:
+            ctx.violation({'clause': 'the leaf runs under the embedder\'s plugins exactly as when run directly'},
+                          f'shape {shape} leaf {i}: signature-extension plugin ran {PLUGIN_CALLS[0]} times, expected {want_calls}')
         rv, rlog = ref_run([unl, lock])
         if type(rv) is bool and (rv is not v or rlog != log):
             ctx.violation({'clause': 'reference interpreter disagrees on honest proof'}, f'shape {shape} leaf {i}: {v} {log} vs {rv} {rlog}')
@@ -217,6 +252,35 @@ def shape_case(ctx, case):
         must_reject('foreign tree', [(c, s) for c, s in fproof])
         must_reject('empty witness', b'')
         must_reject('script only', P(leaf_script(i)))
+    # the same tree assembled bottom-up, with every intermediate node queried before being grafted: same scripts
+    if n <= 6:
+        leaves2 = {}
+        tree_h = build_real_history(shape, leaves2)
+        if tree_h.locking_script().bytes != lock:
+            ctx.violation({'clause': 'tree assembled bottom-up with intermediate queries has the same root'}, f'shape {shape}')
+        for i, leaf in sorted(leaves2.items()):
+            cnt += 1
+            unl = leaf.unlocking_script().bytes
+            v, log = run_auth([unl, lock])
+            ctx.ran()
+            if unl != leaves[i].unlocking_script().bytes or log != [bytes([i])] or v is not own_verdict(i):
+                ctx.violation({'clause': 'unlocking scripts do not depend on queries made before grafting'},
+                              f'shape {shape} leaf {i}: verdict {v!r} recorder {log}')
+        # grafting through the prioritized builder's tree= argument
+        try:
+            extra = [T.Script.from_bytes(leaf_script(200)), T.Script.from_bytes(leaf_script(204))]
+            big = T.make_script_tree_prioritized(list(extra), tree=tree_h)
+            biglock = big.locking_script().bytes
+            for i, leaf in sorted(leaves2.items()):
+                cnt += 1
+                v, log = run_auth([leaf.unlocking_script().bytes, biglock])
+                ctx.ran()
+                if log != [bytes([i])] or v is not own_verdict(i):
+                    ctx.violation({'clause': 'leaves of a tree grafted with make_script_tree_prioritized(tree=) still unlock'},
+                                  f'shape {shape} leaf {i}: verdict {v!r} recorder {log}')
+        except BaseException as e:
+            ctx.violation({'clause': 'leaves of a tree grafted with make_script_tree_prioritized(tree=) still unlock', 'how': 'raises'},
+                          f'shape {shape}: {e!r}')
     ctx.evaluations += cnt - 1
 
 
